@@ -13,6 +13,7 @@ Decided (proto: abstract walks of the methods of EventEmitter and ProgressReport
   P7  silent() sets the flag to the constant True for the body and restores the saved value afterwards
   R1  ProgressReporter: every public mutator, from every abstract pre-state, refines the 2-bit spec automaton
       (flag == not armed; `complete` emitted iff the spec announces); R2 the value / maximum are updated
+  +   who may write the silence flag: only the constructor, set_silent and silent() (or private helpers reached from them only) - reset / connect / emit may not un-silence
 Not decided: connect by decorator-name parsing, printing, callbacks that raise.
 """
 import ast
@@ -366,6 +367,41 @@ def walk_silent(ctx, cls):
             ctx.violated('C19.P7', fi, p, p)
     else:
         ctx.holds('C19.P7', fi, 'silent() sets is_silent to True for its body and restores the previous value, from both pre-states (%d paths)' % n, 'silent')
+    # who may write the flag: "calls nothing while silenced" holds over histories only if no other operation of the history alphabet (connect, unconnect, reset, emit)
+    # rewrites it. Stores are allowed in the constructor, set_silent and silent(), and in private helpers reached from those only.
+    allowed = {'__init__', 'set_silent', 'silent'}
+    methods = {m.name: m for c in repo.mro(cls) if c.module.rel == M for m in c.methods.values()}
+    writers = {}
+    for m in methods.values():
+        for n_ in ast.walk(m.node):
+            if isinstance(n_, ast.Attribute) and isinstance(n_.ctx, (ast.Store, ast.Del)) and n_.attr == 'is_silent' and isinstance(n_.value, ast.Name) and n_.value.id == m.self_name:
+                writers.setdefault(m.name, n_)
+            if isinstance(n_, ast.Call) and dotted(n_.func) == 'setattr' and len(n_.args) >= 2 and const_value(n_.args[1]) == 'is_silent':
+                writers.setdefault(m.name, n_)
+
+    def callers(name):
+        return {m.name for m in methods.values() for c in m.calls() if q.method_name(c) == name and isinstance(c.func.value, ast.Name) and c.func.value.id == m.self_name}
+    stray = []
+    for w, node in sorted(writers.items()):
+        if w in allowed:
+            continue
+        reach, work = set(), [w]
+        while work:
+            x = work.pop()
+            for c_ in callers(x):
+                if c_ not in reach:
+                    reach.add(c_)
+                    work.append(c_)
+        public = not w.startswith('_') or any(not r.startswith('_') and r not in allowed for r in reach) or not reach
+        if public:
+            stray.append((w, node))
+    if stray:
+        for w, node in stray:
+            ctx.violated('C19.P7', methods[w], node, '%s() rewrites the silence flag: a history that silences the emitter and then goes through %s() dispatches callbacks although it is silenced' % (w, w))
+    elif writers:
+        ctx.holds('C19.P7', fi, 'the silence flag is written only by %s: no other operation of a history can un-silence the emitter' % ', '.join(sorted(writers)), 'is_silent')
+    else:
+        ctx.undecided('C19.P7', fi, 'no store to the silence flag found')
 
 
 # ---------------------------------------------------------------------------------------------- reporter
